@@ -37,7 +37,7 @@ TRUSTED = [
 ASSUMPTIONS = ["no handler vetoes player_add_request; no ball devices / ball save / ball search (fake-game scaffolding)",
                "handlers of lifecycle events do not raise"]
 
-KNOWN_SIGS = ("end-game-before-game-started",)
+KNOWN_SIGS = ("end-game-before-game-started", "late-player-add-at-turn-start")
 GRID = 0.125
 LIFE = ["game_will_start", "game_starting", "game_started", "player_turn_will_start", "player_turn_starting",
         "player_turn_started", "ball_will_start", "ball_starting", "ball_started", "ball_will_end", "ball_ending",
@@ -275,6 +275,8 @@ class Parser:
         self.in_ball_wait = False
         self.cur = 0
         self.players = 0
+        self.window_b0 = None    # inside player_turn_will_start..started of a turn: the player's ball count before it
+        self.late_add = False
 
     def envs(self):
         """consume requests between lifecycle events, tracking what they mean for the numeric clauses"""
@@ -296,6 +298,9 @@ class Parser:
             elif w[0] == "slam":
                 self.trigger = True
                 self.slam = True
+            elif w[0] == "playeradded" and self.window_b0 is not None and self.window_b0 >= 1:
+                # the guard `player.ball > 1` is evaluated before `player.ball += 1`: a player joins during ball 2
+                self.late_add = True
             elif w[0] == "extraball" and curnum:
                 self.extra[curnum] = self.extra.get(curnum, 0) + 1
             self.i += 1
@@ -346,10 +351,14 @@ class Parser:
         p, b0 = nxt, self.ball_of.get(nxt, 0)
         self.expect("player_turn_will_start", p, b0)
         self.cur = p
+        self.window_b0 = b0
         self.expect("player_turn_starting", p, b0)
         b = b0 + 1
+        self.peek()
+        self.window_b0 = None
         if b > self.case["bpg"]:
-            raise Reject("ball-number-exceeds-balls-per-game", {"player": p, "ball": b})
+            raise Reject("late-player-add-at-turn-start" if self.late_add else "ball-number-exceeds-balls-per-game",
+                         {"player": p, "ball": b, "balls_per_game": self.case["bpg"]})
         self.ball_of[p] = b
         self.expect("player_turn_started", p, b)
         first = True
@@ -552,6 +561,9 @@ def corpus():
               "ops": [["addplayer"], ["setbip", 5], ["extraball"], ["drain", 1], ["adv", 12], ["setbip", -1], ["adv", 12]],
               "hooks": [{"event": "ball_ending", "prio": 100000, "max": 2, "acts": [["wait", 5], ["addplayer"]]},
                         {"event": "ball_starting", "prio": 1, "max": 2, "acts": [["wait", 2], ["endball"]]}]})
+    # known finding: a player added inside player_turn_starting of player 1's second turn (guard sees ball 1)
+    c.append({"kind": "game", "bpg": 3, "maxp": 4, "known": 2, "ops": [["drain", 1], ["addplayer"]],
+              "hooks": [{"event": "player_turn_starting", "prio": 100000, "max": 2, "acts": [["setbip", 0], ["wait", 5]]}]})
     return c
 
 
